@@ -25,7 +25,8 @@ RULE = ("seeded member lists under group keys g, grp, my_g, my-g, c, h, p: 1-5 l
         "real parsers; scalars for the group key are truthy and falsy (5, [1], true, 0, false, []). Each declaration "
         "also carries a construction HISTORY for the inner-parser style: in 2/3 of them the component parser (and a "
         "nested component) was USED on its own before being attached — parse_env, parse_args with env, plain "
-        "parse_args, help, get_defaults or dump, with default_env=True / env_prefix=COMPONENT — which must not change "
+        "parse_args, help, get_defaults or dump, with default_env=True / env_prefix=COMPONENT — or was first OFFERED to "
+        "another parent that refuses it (ActionParser conflicting keys, ValueError) — which must not change "
         "anything (the model compilers do not depend on it). non-trivial = table case with >=2 leaves or run case with a non-empty input; distinct = distinct "
         "(declaration, input, observation)")
 TRUSTED = [
@@ -56,8 +57,8 @@ ASSUMPTIONS = [
     "parse_object({'my-g': {}}) is accepted by the dataclass / class styles and rejected by the dotted / inner-parser "
     "styles: a residual difference that the two-level table model (no group names) does not cover; see notes/C07.md)",
     "the only construction history modelled as irrelevant is a stand-alone USE of the inner-parser style's component "
-    "parser before attaching (parse / help / defaults / dump); modifying it after attaching, or attaching one component "
-    "twice, is not generated",
+    "parser before attaching (parse / help / defaults / dump) or a refused attach to another parent; modifying it after "
+    "attaching, or a SUCCESSFUL attach of one component to two parents, is not generated",
     "the top-level 'cfg' entry of the result (list of config paths) is the same in all styles and is not compared",
     "exception classes and message texts are not compared (accept / reject / exit / other)",
 ]
@@ -444,7 +445,8 @@ def gen_members(rng, gk):
     return ms
 
 
-HISTORIES = [None, None, None, "parse_env", "parse_args_env", "parse_args", "help", "defaults", "dump"]
+HISTORIES = [None, None, None, "parse_env", "parse_args_env", "parse_args", "help", "defaults", "dump", "refused_attach",
+             "refused_attach"]
 
 
 def mk_case(t, gk, ms, inp=None, full=False, history=None):
